@@ -64,7 +64,7 @@ func C07(tier string) int {
 	ops := crash07.Ops
 	if tier != "thorough" {
 		// quick: one operation per mechanism (store + db, multi-mailbox, removal, namespace, connector batch / replace)
-		ops = []string{"APPEND", "MOVE", "EXPUNGE", "RENAME", "CONN-CREATE-KNOWN", "CONN-UPDATE", "LOGOUT-PURGE"}
+		ops = []string{"APPEND", "MOVE", "EXPUNGE", "RENAME", "CONN-CREATE-KNOWN", "CONN-UPDATE", "LOGOUT-PURGE", "FETCH-REDOWNLOAD"}
 	}
 	seq := 0
 	newDir := func() string { seq++; return c07Dir(seq) }
